@@ -61,7 +61,7 @@ TABLE = [
     (r'Session::handle_downlink_macs:overflow:Add', 'bounded', 'num_adrreq counts LinkADRReq commands of one frame (<= 255 bytes)'),
     (r'Uplink::add_mac_command:overflow:Add', 'bounded', 'pending.len() <= 15 and payload_len() of a MAC answer <= 14'),
     (r'Uplink::add_mac_command:unwrap:Result::unwrap', 'bounded', 'guarded by len + payload_len < 15 (C08 checks the guard)'),
-    (r'Uplink::clear_mac_commands::\{closure#1\}:unwrap', 'bounded', 'copies a subset of a 15-byte vector into a 15-byte vector'),
+    (r'Uplink::clear_mac_commands(::\{closure#\d\})?:unwrap', 'bounded', 'copies a subset of a 15-byte vector into a 15-byte vector'),
     (r'Session::handle_rx:unwrap:Result::unwrap', 'bounded', 'decrypt_in_place after a successful validate_mic on the same bytes; FRMPayload <= 256 fits Vec<u8, 256>'),
     (r'channel_mask_validate::\{closure#\d\}:unwrap:Result::unwrap', 'bounded', 'is_enabled(i) with i from a constant range below 72'),
     (r'(channel_dl_update|handle_new_channel):panic:explicit', 'bounded', 'fixed-plan stubs are unreachable: handle_downlink_macs skips both commands when has_fixed_channel_plan()'),
@@ -688,12 +688,17 @@ def run(tier):
                 '%s (%s)' % (o.fn, o.span), 'OBLIGATION(%s)' % o.kind, o.detail)
         else:
             classes.setdefault(cls, []).append({'site': o.key(), 'reason': why})
-            grp = '%s:%s:%s' % (short(o.fn), o.kind, o.desc)
+            # closures belong to their function: moving a site between a closure and its function is not a new site
+            grp = '%s:%s:%s' % (re.sub(r'::\{closure#\d+\}', '', short(o.fn)), o.kind, o.desc)
             per_group[grp] = per_group.get(grp, 0) + 1
             group_sites.setdefault(grp, []).append('#%d (%s): %s' % (o.ord, o.span, ((o.detail or {}).get('why') or '')[:160]))
     # a classified group may not grow: a *new* undischarged site of the same kind in the same function is a violation
+    limits = {}
+    for g_, n_ in GROUP_LIMITS.items():
+        g2_ = re.sub(r'::\{closure#\d+\}', '', g_)
+        limits[g2_] = limits.get(g2_, 0) + n_
     for grp, n in sorted(per_group.items()):
-        lim = GROUP_LIMITS.get(grp)
+        lim = limits.get(grp)
         res.require(lim is not None and n <= lim, 'C04:%s:new-undischarged-site' % grp,
                     '%d undischarged sites in this group, %s reviewed: a panic-capable site that the classification was not written for is no longer discharged; sites: %s' % (
                         n, lim, '; '.join(group_sites.get(grp, []))),
